@@ -440,6 +440,19 @@ func allCuts(b *built) []int {
 	return out
 }
 
+// rotateModes spreads the persisted configurations over the cuts of a log:
+// offset c runs under modeCycle[(c + seed + shard) mod 4], so that four
+// consecutive seeds (or shards) put every offset under every configuration.
+func rotateModes(c int) string {
+	i := (int64(c) + ev.BaseSeed() + int64(ev.Shard())) % int64(len(modeCycle))
+	if i < 0 {
+		i += int64(len(modeCycle))
+	}
+	return modeCycle[i]
+}
+
+const ruleConfig = " Persisted configuration is a dimension of the cuts in this sub-check: offset c is started with the config file of mode (c+seed+shard) mod 4 of {none, read_only:true, follow_host/follow_port of an unreachable leader, requirepass}; the file/aof_size oracle is evaluated on what the START-UP left behind, then the server is taken back to a read/write leader (READONLY no / FOLLOW no one must answer +OK and must not touch the log; AUTH on every connection) and the rest of the oracle is unchanged."
+
 const ruleCommon = " For each cut c the file log[:c] is written as appendonly.aof into a fresh directory and the real server is started on it: it must start; the file must be cut back to the end of the last complete command (NUL padding in front of the torn command may stay: any length between the last complete command and the start of the torn one is accepted, and for a cut on a boundary / inside a NUL run the file must keep its length or lose only padding) with its kept bytes unchanged; SERVER aof_size must equal the file length; the dump (all keys, objects, fields, TTL flags, hooks, channels) must equal the model replay of the commands wholly before c; one more SET must be acknowledged and sit byte-exactly behind the kept bytes; after a clean stop and a second start the file must be unchanged and the dump must equal previous model + that SET. Non-trivial: the cut is strictly inside a command, or the cut file ends in / right behind NUL padding, or it ends on a command boundary but needs more than one 65535-byte read (healthy multi-read file, must come back unchanged) (classified: in the *n header, in a $n header, inside bulk data, between CR and LF, before the bulk CRLF, at an argument boundary; flags: read-chunk straddle, after a NUL run, binary bytes before the cut); distinct by (log digest, cut offset)."
 
 // ---- sub-checks ----------------------------------------------------------------
@@ -451,7 +464,7 @@ func TestC04_Kinds(t *testing.T) {
 	}
 	c := ev.New("C04", "kinds", "fault_enumeration")
 	t.Cleanup(c.Flush)
-	c.Rule("one fixed log with every logged command kind (SET point/pointz/bounds/hash/object/string with FIELD and EX, FSET, EXPIRE, PERSIST, JSET, JDEL, DEL, PDEL, RENAME, RENAMENX, DROP, FLUSHDB, SETHOOK, SETCHAN, DELHOOK, DELCHAN, PDELHOOK, PDELCHAN) and two short NUL runs; EVERY byte offset 0..len is a cut." + ruleCommon)
+	c.Rule("one fixed log with every logged command kind (SET point/pointz/bounds/hash/object/string with FIELD and EX, FSET, EXPIRE, PERSIST, JSET, JDEL, DEL, PDEL, RENAME, RENAMENX, DROP, FLUSHDB, SETHOOK, SETCHAN, DELHOOK, DELCHAN, PDELHOOK, PDELCHAN) and two short NUL runs; EVERY byte offset 0..len is a cut." + ruleConfig + ruleCommon)
 	c.Assume("hooks and channels are modelled by dump: the expected HOOKS/CHANS entry is what a live reference server lists after executing the same SETHOOK/SETCHAN")
 	b, err := build(kindsLog())
 	if err != nil {
@@ -459,7 +472,7 @@ func TestC04_Kinds(t *testing.T) {
 	}
 	c.Exhaustive(true)
 	var ss subState
-	checkLog(t, c, &ss, b, allCuts(b))
+	checkLog(t, c, &ss, b, allCuts(b), rotateModes)
 	c.Note("kinds log: %d bytes, %d commands", len(b.bytes), len(b.cmds))
 }
 
@@ -478,7 +491,7 @@ func TestC04_Exhaustive(t *testing.T) {
 		if len(b.bytes) > 4096 {
 			rt.Skip("log larger than 4 KB")
 		}
-		checkLog(rt, c, &ss, b, allCuts(b))
+		checkLog(rt, c, &ss, b, allCuts(b), nil)
 	})
 }
 
@@ -492,14 +505,14 @@ func TestC04_Chunks(t *testing.T) {
 	t.Cleanup(c.Flush)
 	radius := ev.Pick(16, 24)
 	nRandom := ev.Pick(30, 100)
-	c.Rule(fmt.Sprintf("random logs with 1-3 STRING values of 20 KB..200 KB (lengths biased to land within +-120 bytes of a multiple of the loader's 65535-byte read size; patterns containing CR LF, NUL, 0xff, RESP look-alikes), ordinary and binary writes around them, NUL runs of 1..4096 bytes at item boundaries; cuts = every offset within +-%d bytes of every item boundary and of every multiple of 65535, plus %d random offsets.", radius, nRandom) + ruleCommon)
+	c.Rule(fmt.Sprintf("random logs with 1-3 STRING values of 20 KB..200 KB (lengths biased to land within +-120 bytes of a multiple of the loader's 65535-byte read size; patterns containing CR LF, NUL, 0xff, RESP look-alikes), ordinary and binary writes around them, NUL runs of 1..4096 bytes at item boundaries; cuts = every offset within +-%d bytes of every item boundary and of every multiple of 65535, plus %d random offsets.", radius, nRandom) + ruleConfig + ruleCommon)
 	c.Assume("hooks and channels are modelled by dump (live reference server)")
 	var ss subState
 	ev.Rapid("chunks", 2)
 	rapid.Check(t, func(rt *rapid.T) {
 		b := drawLog(rt, logOpts{maxBytes: 600000, maxCmds: ev.Pick(5, 9), nulMax: 4096, bigValues: rapid.IntRange(1, 3).Draw(rt, "nbig"), bigMax: 200000, binWeight: 3, hookWeight: 1})
 		extra := rapid.SliceOfN(rapid.IntRange(0, len(b.bytes)), nRandom, nRandom).Draw(rt, "randomcuts")
-		checkLog(rt, c, &ss, b, windowCuts(b, radius, extra))
+		checkLog(rt, c, &ss, b, windowCuts(b, radius, extra), rotateModes)
 	})
 }
 
